@@ -19,6 +19,7 @@ import Proofs.Regularization
 import Proofs.RegularizationSplit
 import Proofs.RegularizationSplitFrom
 import Proofs.RegularizationKernel
+import Proofs.RegularizationGaussPD
 import Proofs.RegularizationBlock
 import Mathlib.Analysis.Real.Sqrt
 import Mathlib.Analysis.Complex.Exponential
@@ -358,6 +359,31 @@ theorem kernel_reg_posdef_partial (env : Impl.Env α) (c scale : α) (hc : 0 < c
   · intro x hx hx0
     rw [quad_smul]
     exact mul_pos hc (hB2 x hx hx0)
+
+/-- (e, Gaussian — full) over ℝ with the real `exp` and `sqrt`, the covariance matrix that
+    `gauss_cov_matrix_from` builds is positive definite for every list of points (repeated points
+    allowed), every scale (even 0, where the code divides by zero) and every ridge > 0:
+    `exp(−|p−q|²/2σ²) = u(p)u(q)·exp(⟨p,q⟩/σ²)`, the exponential is a series of powers of the
+    dot-product kernel, each a sum of squares by the binomial theorem -/
+theorem gaussian_kernel_cov_posdef (scale ridge : ℝ) (hρ : 0 < ridge) (pts : List (ℝ × ℝ)) :
+    IsPosDef pts.length
+      (Impl.covMatrix (Impl.gaussKernel Real.exp scale) Real.sqrt ridge pts) :=
+  gaussCov_posdef scale ridge hρ pts
+
+/-- (e, Gaussian — full) `GaussianKernel.regularization_matrix_from` returns a symmetric strictly
+    positive-definite matrix: only the contract of `np.linalg.inv` remains as a hypothesis -/
+theorem gaussian_kernel_reg_posdef (env : Impl.Env ℝ) (hexp : env.exp = Real.exp)
+    (hsqrt : env.sqrt = Real.sqrt) (hρ : 0 < env.ridge) (c scale : ℝ) (hc : 0 < c)
+    (o : Impl.LinObj ℝ)
+    (hinv : IsRightInverse o.points.length
+              (Impl.covMatrix (Impl.gaussKernel Real.exp scale) Real.sqrt env.ridge o.points)
+              (env.inv (Impl.covMatrix (Impl.gaussKernel Real.exp scale) Real.sqrt env.ridge o.points))) :
+    ∃ H, Impl.schemeMatrix env (.gaussianKernel c scale) o = .ok H
+      ∧ IsSymm o.points.length H ∧ IsPosDef o.points.length H := by
+  have h := kernel_reg_posdef_partial env c scale hc o (Impl.gaussKernel env.exp scale)
+    (.gaussianKernel c scale) (Or.inl ⟨rfl, rfl⟩)
+  rw [hexp, hsqrt] at h
+  exact h (gaussCov_posdef scale env.ridge hρ o.points) hinv
 
 /-! ## (f) assembly over the linear objects -/
 
